@@ -108,7 +108,7 @@ class Cli:
 
         self.disabled_str_types = list(namespace.disable_str_serializable_types)
 
-        self.setup_models_data(namespace.model or (), namespace.list or (), parser)
+        self.setup_models_data(namespace.model or (), (), parser)
         self.validate(merge_policy, framework, code_generator)
         self.set_args(merge_policy, structure, framework, code_generator, code_generator_kwargs_raw,
                       dict_keys_regex, dict_keys_fields, disable_unicode_conversion, preamble)
@@ -414,7 +414,7 @@ class Cli:
                  "\n\n"
         )
         parser.add_argument(
-            "-l", "--list",
+            "-l", "--list", dest="model",  # same list as --model: data is collected in order of arguments
             nargs=3, action="append", metavar=("<Model name>", "<JSON lookup>", "<JSON file>"),
             help="DEPRECATED, use --model argument instead"
         )
